@@ -28,7 +28,7 @@ CHECKS["C09"] = dict(
 CHECKS["C01"] = dict(
     category="model_checking",
     technique="exhaustive chunk-size-sequence sweep plus deviation-bounded schedule/transport exploration (DX) of two real linked Sessions; IX sweep at the Stream AsyncRead/AsyncWrite seam",
-    text="Real client session <-> real server session over virtual pipes. B=0 sweep of every sequence of <=2 chunk sizes (thorough: +3 over a reduced set) from 15 boundary sizes 0..131072 x direction x both submission paths x 3 padding schemes x read-buffer sizes x pipe capacity; DX (B<=2 quick, 3 thorough) of concurrent flows on 1-2 streams with forced yields, short reads straddling frame headers, short/pending writes and back-pressure. Oracle at every read return: bytes are the exact continuation of the position-coded pattern; at quiescence everything submitted was read, nothing more, and no 0-byte read happened while the stream was open. Read calls of varying sizes incl. zero-length ones, and reads that are cancelled while they wait and started again with another buffer size (also through the AsyncRead impl: 512 chunk / buffer-size combinations). LX supplement through the real SOCKS5 / HTTP CONNECT front-ends, TLS, Server and handler: echo of 1..200 000 (1 000 000) bytes on 3 concurrent connections (one half-closing after writing), and 12 (24) MB uploads to a slow target / downloads by a slow application (tiny receive buffers: partial and pending writes in the forwarding loops).",
+    text="Real client session <-> real server session over virtual pipes. B=0 sweep of every sequence of <=2 chunk sizes (thorough: +3 over a reduced set) from 15 boundary sizes 0..131072 x direction x both submission paths x 3 padding schemes x read-buffer sizes x pipe capacity; DX (B<=2 quick, 3 thorough) of concurrent flows on 1-2 streams with forced yields, short reads straddling frame headers, short/pending writes and back-pressure; slow links (16 bytes in flight, delivered after 16 / 31 / 61 s of virtual time) that cut every write in mid-frame with long stalls. Oracle at every read return: bytes are the exact continuation of the position-coded pattern; at quiescence everything submitted was read, nothing more, and no 0-byte read happened while the stream was open. Read calls of varying sizes incl. zero-length ones, and reads that are cancelled while they wait and started again with another buffer size (also through the AsyncRead impl: 512 chunk / buffer-size combinations). LX supplement through the real SOCKS5 / HTTP CONNECT front-ends, TLS, Server and handler: echo of 1..200 000 (1 000 000) bytes on 3 concurrent connections (one half-closing after writing), and 12 (24) MB uploads to a slow target / downloads by a slow application (tiny receive buffers: partial and pending writes in the forwarding loops).",
     note="Trusted: vpipe environment, fixed position/stream/direction-coded payload pattern (other contents not explored), at most 2 streams, TLS record layer out of scope.",
     design="DESIGN.md §6 C01",
 )
